@@ -16,8 +16,33 @@ from ..report import RuleResult, alpha
 API = ["parse", "render", "parseInline", "renderInline"]
 
 
-def _is_env_alias(e: ast.AST) -> bool:
-    return (isinstance(e, ast.Name) and e.id == "env") or (isinstance(e, ast.Attribute) and e.attr == "env")
+def _default_idiom(v: ast.AST, is_alias) -> bool:
+    """`{} if P is None else P` / `P if P is not None else {}` / `P or {}`-free forms, P being the env object"""
+    if isinstance(v, ast.IfExp):
+        if isinstance(v.orelse, ast.Name) and is_alias(v.orelse) and isinstance(v.body, ast.Dict) and not v.body.keys \
+                and U(v.test) == f"{v.orelse.id} is None":
+            return True
+        if isinstance(v.body, ast.Name) and is_alias(v.body) and isinstance(v.orelse, ast.Dict) and not v.orelse.keys \
+                and U(v.test) == f"{v.body.id} is not None":
+            return True
+    return False
+
+
+def _is_env_alias(e: ast.AST, f: Func | None = None, depth: int = 0) -> bool:
+    """The env object itself: the name / parameter `env`, an attribute `.env`, or a local of f bound only to the env object
+    or to the default idiom over it."""
+    if (isinstance(e, ast.Name) and e.id == "env") or (isinstance(e, ast.Attribute) and e.attr == "env"):
+        return True
+    if isinstance(e, ast.Name) and f is not None and depth < 3:
+        ds = [n for n in own_nodes(f.node) if isinstance(n, ast.Assign) and any(isinstance(t, ast.Name) and t.id == e.id for t in n.targets)]
+        others = [n for n in own_nodes(f.node) if isinstance(n, ast.Name) and n.id == e.id and isinstance(n.ctx, ast.Store)
+                  and not isinstance(f.module.parents.get(n), ast.Assign)]
+        if ds and not others:
+            al = lambda x: _is_env_alias(x, f, depth + 1)          # noqa: E731
+            return all(al(d.value) or _default_idiom(d.value, al) or (
+                isinstance(d.value, ast.Dict) and not d.value.keys and isinstance(f.module.parents.get(d), ast.If)
+                and U(f.module.parents.get(d).test).endswith(" is None")) for d in ds)
+    return False
 
 
 def rule_env(c: Ctx) -> RuleResult:
@@ -35,7 +60,7 @@ def rule_env(c: Ctx) -> RuleResult:
                 if arg is None:
                     continue          # default used
                 nh += 1
-                ok = _is_env_alias(arg)
+                ok = _is_env_alias(arg, f)
                 r.add(f"{f.short}|call {g.short}|env", c.where(f, cs.node), f.short, U(cs.node)[:80], "discharged" if ok else "violation",
                       f"forwards `{U(arg)}` itself to {g.short}" if ok else
                       f"`{U(arg)[:50]}` is passed as env to {g.short}: not the caller's env object (a copy or a fresh mapping), so definitions "
@@ -45,16 +70,23 @@ def rule_env(c: Ctx) -> RuleResult:
         for n in own_nodes(f.node):
             if isinstance(n, ast.Assign) and any(isinstance(t, ast.Attribute) and t.attr == "env" for t in n.targets):
                 nh += 1
-                ok = _is_env_alias(n.value)
+                ok = _is_env_alias(n.value, f)
                 r.add(f"{f.short}|store env", c.where(f, n), f.short, U(n)[:70], "discharged" if ok else "violation",
                       "the state keeps the object it was given" if ok else f"the state stores `{U(n.value)[:50]}` instead of the env object it was given")
     # (c) the API defaults: env = {} if env is None else env
-    for m in API:
-        f = c.p.func(f"main.py:MarkdownIt.{m}")
+    api_funcs = [c.p.func(f"main.py:MarkdownIt.{m}") for m in API]
+    helpers_ = [g for f0 in api_funcs for cs in c.cg.sites.get(f0, []) for g in cs.callees
+                if g.cls == "MarkdownIt" and g.name.startswith("_") and g not in api_funcs]
+    for f in api_funcs + sorted(set(helpers_), key=lambda x: x.qual):
         for n in own_nodes(f.node):
-            if isinstance(n, ast.Assign) and any(isinstance(t, ast.Name) and t.id == "env" for t in n.targets):
+            if isinstance(n, ast.Assign) and any(isinstance(t, ast.Name) and (t.id == "env" or _default_idiom(n.value, lambda x: _is_env_alias(x, f)))
+                                                 for t in n.targets):
                 nh += 1
                 v = n.value
+                if _default_idiom(v, lambda x: _is_env_alias(x, f)):
+                    r.add(f"{f.short}|default env", c.where(f, n), f.short, U(n), "discharged",
+                          "a fresh empty mapping only when the caller passed none; otherwise the caller's object")
+                    continue
                 ok = isinstance(v, ast.IfExp) and isinstance(v.orelse, ast.Name) and v.orelse.id == "env" and isinstance(v.body, ast.Dict) \
                     and not v.body.keys and U(v.test) in ("env is None",)
                 ok = ok or (isinstance(v, ast.IfExp) and isinstance(v.body, ast.Name) and v.body.id == "env" and isinstance(v.orelse, ast.Dict)
